@@ -83,6 +83,7 @@ NATIVE = {
     'c13i': {'tags': ['C13', 'C16'], 'enum': 'byte_families::fam_c13i', 'check': 'byte_families::run_c13i(c)', 'n': 300000, 'family': 'structured version sections iterated from several offsets and counts (three records each)'},
     'c02n': {'tags': ['C02'], 'enum': 'byte_families::fam_c02', 'check': 'run_c02(c)', 'n': 600000, 'family': 'every ABI structure decoded from buffers <= 80 bytes at offsets 0..8 and past the end, both classes and byte orders, against the layout table'},
     'c16n': {'tags': ['C16'], 'panic_props': ['C01'], 'enum': 'term_oracle::enumerate_term', 'check': 'term_oracle::check_term(c)', 'n': 140000, 'family': 'adversarial link structures of < 300 bytes: SysV chains with cycles / self-loops / out-of-range links, GNU chains without stop bit, VerNeed / VerDef records with next = 0 / overlapping / huge and counts up to u64::MAX, random notes and entry tables; clauses: returns within 3 s, at most one item per byte, at most the declared count'},
+    'c19n': {'tags': ['C19'], 'panic_props': [], 'enum': 'c19_gen::enumerate_c19', 'check': 'c19_gen::check_c19(c)', 'n': 3000, 'family': 'every constant of the reference table that elf::abi exports; every to_str function over its whole domain (u8 / u16) or over all constant values, their neighbours and 3000 pseudo-random values (u32 / u64 / i64); the to_string variants against to_str / the fallback text'},
     'c13n': {'panic_props': ['C13', 'C01'], 'enum': 'slice_oracle::enumerate_symver', 'check': 'slice_oracle::check_symver(c)', 'n': _n('VERIF_SYMVER_CASES', '300000'),
              'family': 'version sections from kani/replay_src/slice_oracle.rs::enumerate_symver: 1-4 versym entries, 0-3 verneed records with one auxiliary record each, 0-3 verdef records, forward/zero/out-of-range links, hidden bits, unreadable strings; get_requirement/get_definition against a reference resolution'},
 }
@@ -156,6 +157,71 @@ def c02_dispatch():
     arms = ''.join('        %d => check_c02_%s(&c.buf, c.a as usize, c.f1, c.f2),\n' % (i, n) for i, n in enumerate(names))
     return ('#[cfg(not(kani))] pub fn run_c02(c: &byte_families::BytesCase) -> Result<(), String> {\n    match (c.sel as usize) %% %d {\n%s        _ => Ok(()),\n    }\n}\n' % (len(names), arms))
 
+def c19_oracle():
+    """C19 as an executable oracle, generated from the CURRENT abi.rs / to_str.rs and the committed reference table:
+    names of the integer constants and the to_str / to_string functions are taken from the source mechanically; the values
+    the names must have come from spec/abi_reference.json"""
+    abi = open(os.path.join(REPO, 'src', 'abi.rs')).read()
+    ts = open(os.path.join(REPO, 'src', 'to_str.rs')).read()
+    consts = [m.group(1) for m in re.finditer(r'^pub const ([A-Za-z0-9_]+): (u8|u16|u32|u64|i64|i32|usize)\s*=', abi, re.M)]
+    ref = json.load(open(os.path.join(ROOT, 'spec', 'abi_reference.json')))['constants']
+    refl = sorted((n, int(v['value'])) for n, v in ref.items() if n in set(consts))
+    strf = [(m.group(1), m.group(2)) for m in re.finditer(r'^pub fn ((?!\w*human)(?!note_abi_tag_os)\w+_to_str)\(\w+: (\w+)\) -> Option<&\'static str>', ts, re.M)]
+    stringf = {m.group(1): m.group(2) for m in re.finditer(r'^pub fn (\w+)_to_string\(\w+: (\w+)\) -> String', ts, re.M)}
+    dom = {'u8': (0, 255), 'u16': (0, 65535), 'u32': (0, 2**32 - 1), 'u64': (0, 2**64 - 1), 'i64': (-2**63, 2**63 - 1), 'i32': (-2**31, 2**31 - 1)}
+    o = ['#[cfg(not(kani))] pub mod c19_gen {', '    #![allow(unreachable_patterns)]',
+         '    #[derive(Debug, Clone)] pub struct C19Case { pub f: usize, pub v: i128 }',
+         '    pub fn abi_value(n: &str) -> Option<i128> { match n {']
+    o += ['        "%s" => Some(elf::abi::%s as i128),' % (c, c) for c in consts]
+    o += ['        _ => None } }', '    pub const REF: &[(&str, i128)] = &[' + ', '.join('("%s", %d)' % (n, v) for n, v in refl) + '];']
+    o.append('    pub const ALL: &[&str] = &[' + ', '.join('"%s"' % c for c in consts) + '];')
+    o.append('    pub const FNS: &[(&str, i128, i128, bool)] = &[' + ', '.join('("%s", %d, %d, %s)' % (f, dom[t][0], dom[t][1], 'true' if t in ('u8', 'u16') else 'false') for f, t in strf) + '];')
+    o.append('    pub fn call_str(f: usize, v: i128) -> Option<&\'static str> { match f {')
+    o += ['        %d => elf::to_str::%s(v as %s),' % (i, f, t) for i, (f, t) in enumerate(strf)]
+    o += ['        _ => None } }', '    pub fn call_string(f: usize, v: i128) -> Option<String> { match f {']
+    o += ['        %d => Some(elf::to_str::%s_to_string(v as %s)),' % (i, f[:-len('_to_str')], t) for i, (f, t) in enumerate(strf) if stringf.get(f[:-len('_to_str')]) == t]
+    o += ['        _ => None } }', r"""
+    pub fn check_c19(c: &C19Case) -> Result<(), String> {
+        if c.f == usize::MAX {
+            let (n, want) = REF[c.v as usize];
+            return match abi_value(n) { Some(x) if x != want => Err(format!("C19: abi::{} == {:#x} but the ABI reference tables (glibc <elf.h> / LLVM BinaryFormat) give {:#x}", n, x, want)), _ => Ok(()) };
+        }
+        let name = FNS[c.f].0;
+        let got = call_str(c.f, c.v);
+        if let Some(n) = got {
+            match abi_value(n) {
+                None => return Err(format!("C19: {}({:#x}) == Some({:?}) which is not the identifier of an exported integer constant of elf::abi", name, c.v, n)),
+                Some(x) if x != c.v => return Err(format!("C19: {}({:#x}) == Some({:?}) but abi::{} == {:#x}", name, c.v, n, n, x)),
+                _ => {}
+            }
+        }
+        if let Some(s) = call_string(c.f, c.v) {
+            match got {
+                Some(n) => if s != n { return Err(format!("C19: {}ing({:#x}) == {:?} but {}({:#x}) == Some({:?})", name, c.v, s, name, c.v, n)); },
+                None => if !(s.contains(&format!("{:x}", c.v)) || s.contains(&format!("{}", c.v))) { return Err(format!("C19: {}ing({:#x}) == {:?}: the fallback text does not contain the number", name, c.v, s)); },
+            }
+        }
+        Ok(())
+    }
+    /// every reference constant; every to_str function over its whole domain (u8 / u16) or over every constant value of
+    /// elf::abi and of the reference tables, its neighbours, and pseudo-random values (wider types)
+    pub fn enumerate_c19(n: usize, seed: u64) -> Vec<C19Case> {
+        let mut out: Vec<C19Case> = (0..REF.len()).map(|i| C19Case { f: usize::MAX, v: i as i128 }).collect();
+        let mut vals: Vec<i128> = REF.iter().map(|r| r.1).collect();
+        for nm in ALL.iter() { if let Some(x) = abi_value(nm) { vals.push(x); } }
+        vals.sort(); vals.dedup();
+        let mut s = seed;
+        for (f, (_, lo, hi, small)) in FNS.iter().enumerate() {
+            if *small { for v in *lo..=*hi { out.push(C19Case { f, v }); } continue; }
+            for v in vals.iter() { for d in [-1i128, 0, 1] { let x = v + d; if x >= *lo && x <= *hi { out.push(C19Case { f, v: x }); } } }
+            for _ in 0..n { s = s.wrapping_mul(6364136223846793005).wrapping_add(1442695040888963407); let x = *lo + ((s >> 11) as i128 % (*hi - *lo + 1)); out.push(C19Case { f, v: x }); }
+        }
+        out
+    }
+}
+"""]
+    return '\n'.join(o)
+
 def gen_harness_rs(hs):
     out = ['#[cfg(kani)]\nmod search {\n    use super::*;']
     for name, h in hs.items():
@@ -195,7 +261,7 @@ def setup(tmp):
     checks = '\n'.join(l for l in checks.splitlines() if not l.startswith('//!')) + '\n'
     checks = checks.replace('include!("layout_oracle.rs");', layout_oracle())
     # route the hand-written Err(format!(..)) through the cheap path under Kani as well
-    open(os.path.join(tmp, 'src', 'lib.rs'), 'w').write(LIB_HEAD + checks + gen_harness_rs(hs) + '\n#[cfg(not(kani))] pub mod stream_oracle;\n#[cfg(not(kani))] pub mod slice_oracle;\n#[cfg(not(kani))] pub mod byte_families;\n#[cfg(not(kani))] pub mod term_oracle;\n' + c02_dispatch())
+    open(os.path.join(tmp, 'src', 'lib.rs'), 'w').write(LIB_HEAD + checks + gen_harness_rs(hs) + '\n#[cfg(not(kani))] pub mod stream_oracle;\n#[cfg(not(kani))] pub mod slice_oracle;\n#[cfg(not(kani))] pub mod byte_families;\n#[cfg(not(kani))] pub mod term_oracle;\n' + c02_dispatch() + c19_oracle())
     for f_ in ('stream_oracle.rs', 'slice_oracle.rs', 'byte_families.rs', 'term_oracle.rs'): shutil.copy(os.path.join(ROOT, 'kani', 'replay_src', f_), os.path.join(tmp, 'src', f_))
     open(os.path.join(tmp, 'Cargo.toml'), 'w').write('[package]\nname = "elf-verif-replay"\nversion = "0.1.0"\nedition = "2021"\n\n[dependencies]\nelf = { path = "%s" }\n\n[lints.rust]\nunexpected_cfgs = { level = "allow", check-cfg = [\'cfg(kani)\'] }\n\n[workspace]\n' % os.path.join(tmp, 'elf'))
     return hs
@@ -324,6 +390,7 @@ def search(harness, timeout=420, prop=None):
         shutil.rmtree(tmp, ignore_errors=True)
 
 PAIRING = [
+    (r'^C19\.(value\.|\w+_to_str\.)|^(safety|proof):to_str::', lambda m: 'c19n'),
     (r'^C16\.(?!Ver(Need|Def)Iterator\.next)|^termination:', lambda m: 'c16n'),
     (r'^C04\.(u8|u16|u32|u64|i32|i64)\.', lambda m: ['c04n', 'c04_' + m.group(1)]),
     (r'^C15\.get_raw\.', lambda m: ['c15n', 'c15']),
